@@ -95,7 +95,20 @@ theorem C17_json_grammar_dotless_partial (cfg : Config) (npl : Nat) (d : Dec)
     Serde.isJsonNumber (Serde.jsonNumText cfg npl d) = true :=
   jsonNumText_grammar_dotless cfg npl d h
 
+/-- **Partial**, stronger form: the same for the `E` notation (`d.dddE-n`, chosen for values with many leading
+    zeros) - every layout except the plain one, which is covered by the correspondence only. -/
+theorem C17_json_grammar_partial (cfg : Config) (npl : Nat) (d : Dec)
+    (h : chooseNotation cfg d.int.natAbs d.scale none ≠ .full ∨ (d.int = 0 ∧ d.scale < 0)) :
+    Serde.isJsonNumber (Serde.jsonNumText cfg npl d) = true :=
+  jsonNumText_grammar_exp cfg npl d h
+
+/-- the premise is met: `1.2E-29` under the default thresholds is printed in the `E` notation -/
+example : chooseNotation (⟨100, .HalfEven, 5, 15, 1000, 150000⟩ : Config) (12 : Nat) 30 none = .exponential := by
+  have h : (natStr 12).length = 2 := by simp [natStr, digitsLE]
+  unfold chooseNotation
+  simp [h]
+
 /-- the premise is met: `-12e+20` under the default thresholds is printed dotless -/
-example : chooseNotation Generated.buildConfig (12 : Nat) (-20) none = .dotless := by decide
+example : chooseNotation (⟨100, .HalfEven, 5, 15, 1000, 150000⟩ : Config) (12 : Nat) (-20) none = .dotless := by decide
 
 end BigDec
